@@ -1,6 +1,8 @@
 SPECIFICATION Spec
 CONSTANTS
   Full = TRUE
+  DEV_SmallAngleLinearised = FALSE
+  DEV_EnvironmentNotMoved = FALSE
 INVARIANT TypeOK
 INVARIANT LawDist
 INVARIANT LawArea
@@ -11,3 +13,5 @@ INVARIANT LawUndoTwo
 INVARIANT LawUndoOne
 INVARIANT LawUnion
 INVARIANT LawIdentity
+INVARIANT LawImplConforms
+INVARIANT LawImplRigid
